@@ -107,7 +107,8 @@ class StructType(TdmsType):
         """
         array = byte_array.view()
         array.dtype = cls.nptype.newbyteorder(endianness)
-        return array
+        # Convert to native byte order, this doesn't copy if data is already in native order
+        return array.astype(cls.nptype, copy=False)
 
 
 @tds_data_type(0, None)
@@ -311,7 +312,8 @@ class ComplexType(TdmsType):
         """
         array = byte_array.view()
         array.dtype = cls.nptype.newbyteorder(endianness)
-        return array
+        # Convert to native byte order, this doesn't copy if data is already in native order
+        return array.astype(cls.nptype, copy=False)
 
 
 @tds_data_type(0x08000c, np.complex64)
